@@ -225,6 +225,33 @@ pub fn g4() -> Vec<FamGrammar> {
     out
 }
 
+/// G7: alias tables. Three productions `p1: '1' x x x`, `p2: '2' x x`, `p3: '3' x x x x`, each with at most one child carrying
+/// a per-production alias (position none/0/1/2), the alias named or anonymous, the rules declared in either order; `x`
+/// also occurs without alias (so the alias is not the symbol's default alias and lives in the per-production alias rows).
+/// Every layout of short and long alias rows next to each other occurs.
+pub fn g7() -> Vec<FamGrammar> {
+    let mut out = vec![];
+    let x = || sym("x");
+    for named in [true, false] { for rev in [false, true] {
+        for a1 in 0..4usize { for a2 in 0..3usize { for a3 in 0..4usize {
+            if a1 == 0 && a2 == 0 && a3 == 0 && (rev || !named) { continue; }
+            let body = |lit_: &str, n: usize, a: usize, al: &str| -> Value {
+                let mut v = vec![s(lit_)];
+                for k in 0..n { v.push(if a == k + 1 { alias(x(), al, named) } else { x() }); }
+                seq(v)
+            };
+            let rules: Vec<(&str, Value)> = vec![("p1", body("1", 3, a1, "ax")), ("p2", body("2", 2, a2, "ay")), ("p3", body("3", 4, a3, "az")), ("plain", seq(vec![s("0"), x()]))];
+            let mut g = G::new(&format!("g7_{}{}_{}{}{}", named as u8, rev as u8, a1, a2, a3))
+                .rule("top", rep(choice(vec![sym("p1"), sym("p2"), sym("p3"), sym("plain")])));
+            let order: Vec<usize> = if rev { vec![3, 2, 1, 0] } else { vec![0, 1, 2, 3] };
+            for &k in &order { g = g.rule(rules[k].0, rules[k].1.clone()); }
+            g = g.rule("x", pat("x")).extras(vec![pat("\\s")]);
+            out.push(FamGrammar { id: g.name.clone(), g, alphabet: vec![lit("0"), lit("1"), lit("2"), lit("3"), ("x".to_string(), "x".to_string())], has_ws_extras: true, kind: "G7", op_table: None });
+        } } }
+    } }
+    out
+}
+
 /// All token sequences over the alphabet of length <= n, shortest first.
 pub fn token_strings(alpha: usize, n: usize) -> Vec<Vec<usize>> {
     let mut out = vec![vec![]];
